@@ -27,6 +27,7 @@ Section StyInd.
   Hypothesis HRel : forall o fields, Forall (fun kv => P (snd kv)) fields -> P (SRel o fields).
   Hypothesis HTabRef : forall o a t, P (STabRef o a t).
   Hypothesis HUnion : forall o alts, P (SUnion o alts).
+  Hypothesis HUntyped : forall o, P (SUntyped o).
   Fixpoint sty_ind' (t:sty) : P t :=
     match t with
     | SNoType o => HNo o | SPrim o p => HPrim o p | SEnum o i => HEnum o i
@@ -43,6 +44,7 @@ Section StyInd.
               match l with [] => Forall_nil _ | kv :: t => Forall_cons kv (sty_ind' (snd kv)) (go t) end) fields)
     | STabRef o a t => HTabRef o a t
     | SUnion o alts => HUnion o alts
+    | SUntyped o => HUntyped o
     end.
 End StyInd.
 
@@ -124,7 +126,7 @@ Proof. intros o fields. unfold tup_fields. rewrite map_map. apply map_ext. intro
 
 Lemma map_type_oracle : forall o, perm_oracle o -> forall t, wf_sty t -> map_type o t = map_type ido t.
 Proof.
-  intros o Ho. induction t as [| | op items|op e IH|op e IH|op e IH|op k v IHk IHv| |op mk fields IH|op fields IH| |] using sty_ind';
+  intros o Ho. induction t as [| | op items|op e IH|op e IH|op e IH|op k v IHk IHv| |op mk fields IH|op fields IH| | |] using sty_ind';
     intro Hwf; cbn [map_type wf_sty] in *; try reflexivity.
   - destruct Hwf as [Hk Hv]. f_equal.
     apply mset_all_perm.
@@ -173,7 +175,7 @@ Qed.
 
 Lemma map_type_wf : forall o t, wf_w (map_type o t).
 Proof.
-  intro o. induction t as [| | op items|op e IH|op e IH|op e IH|op k v IHk IHv| |op mk fields IH|op fields IH| |] using sty_ind';
+  intro o. induction t as [| | op items|op e IH|op e IH|op e IH|op k v IHk IHv| |op mk fields IH|op fields IH| | |] using sty_ind';
     cbn [map_type wf_w map fst]; repeat split; try constructor; try assumption; try apply mset_all_keys_NoDup.
   all: apply wf_props_Forall; apply mset_all_Forall_snd; rewrite Forall_forall; intros kv Hin;
     apply entries_at_sub in Hin; apply in_map_iff in Hin; destruct Hin as [[k v] [<- Hin]];
@@ -528,7 +530,7 @@ Local Open Scope string_scope.
 Definition sty_opt (t:sty) : bool :=
   match t with
   | SNoType o | SPrim o _ | SEnum o _ | SSet o _ | SSeq o _ | SList o _ | SMap o _ _ | SRef o _ | STuple o _ _
-  | SRel o _ | STabRef o _ _ | SUnion o _ => o
+  | SRel o _ | STabRef o _ _ | SUnion o _ | SUntyped o => o
   end.
 
 (* SPECIFICATION (independent of the code): the JSON type and format an OpenAPI 3 document shows for a Sysl primitive *)
@@ -704,7 +706,7 @@ Proof. reflexivity. Qed.
 
 Lemma presents_ido : forall t, wf_sty t -> tabrefs_plain t -> presents t (export_type fixed3 ido (map_type ido t)).
 Proof.
-  induction t as [| op p| op items|op e IH|op e IH|op e IH|op k v IHk IHv| |op mk fields IH|op fields IH|op ap ty|op alts] using sty_ind';
+  induction t as [| op p| op items|op e IH|op e IH|op e IH|op k v IHk IHv| |op mk fields IH|op fields IH|op ap ty|op alts|op] using sty_ind';
     intros Hwf Htr; try exact I.
   - (* primitive *)
     cbn [presents map_type]. unfold prim_json.
@@ -902,7 +904,7 @@ Proof. induction props as [|x t IH]; [reflexivity|]. cbn [maxof fold_right]. rew
 
 Lemma map_type_depth : forall o t, (wdepth (map_type o t) <= tdepth t)%nat.
 Proof.
-  intro o. induction t as [| | op items|op e IH|op e IH|op e IH|op k v IHk IHv| |op mk fields IH|op fields IH| |] using sty_ind';
+  intro o. induction t as [| | op items|op e IH|op e IH|op e IH|op k v IHk IHv| |op mk fields IH|op fields IH| | |] using sty_ind';
     cbn [map_type wdepth tdepth]; try lia.
   all: rewrite tdepth_fields, wdepth_props; apply le_n_S; apply Nat.max_lub; [lia|];
     apply maxof_le; intros kv Hin; destruct (mset_all_In_inv _ _ _ Hin) as [E|[]];
